@@ -163,3 +163,22 @@ func VH_C15_C3_ProofSignaturesOwnEntry() {
 	verifrt.Assert(verifrt.Implies(eq, verifrt.And(sigEq(a1, a2), sigEq(b1, b2))), "C3:equal-hash-implies-equal-signatures-per-entry")
 	verifrt.Reach("C3:done")
 }
+
+// VH_C15_C4_ProofKeyEscaping: one proof entry per header; the key of the first is the nil
+// block, a 1-byte or a 5-byte arbitrary string, the key of the second likewise (5 bytes is the
+// length of the serialiser's own nil marker). Equal hashes iff equal keys: the serialised form
+// of a block key can never be mistaken for the nil marker or for serialiser syntax.
+func VH_C15_C4_ProofKeyEscaping() {
+	models()
+	h1 := smallHeader()
+	h2 := h1
+	lens := []int{0, 1, 5}
+	k1 := proofKey("k1", lens[verifrt.Choose("k1len", 3)])
+	k2 := proofKey("k2", lens[verifrt.Choose("k2len", 3)])
+	sig := []gcrypto.SparseSignature{{KeyID: []byte{0, 1}, Sig: []byte{7}}}
+	h1.PrevCommitProof.Proofs = map[string][]gcrypto.SparseSignature{k1: sig}
+	h2.PrevCommitProof.Proofs = map[string][]gcrypto.SparseSignature{k2: sig}
+	eq := beq(blockHash(h1, "C4"), blockHash(h2, "C4"))
+	verifrt.Assert(verifrt.Iff(eq, k1 == k2), "C4:hash-equal-iff-proof-key-equal")
+	verifrt.Reach("C4:done")
+}
